@@ -165,15 +165,23 @@ void Exec::on_dispatch(int ci, DBusConnection *conn, DBusMessage *msg) {
   uint32_t serial = dbus_message_get_serial(msg);
   tr.ev("H2 c%d serial=%u", ci, serial);
   md.now_us = K->now_us;
+  if (c.hostile && c.hostile_lost_sync) return;
   if (c.hostile) {
-    // no trustworthy send record: decode what the bus holds with the independent codec
-    char *buf = nullptr;
-    int len = 0;
-    if (!dbus_message_marshal(msg, &buf, &len)) return;   // OOM: nothing to learn
-    wire::ParseResult r = wire::parse(std::string(buf, (size_t)len));
-    dbus_free(buf);
-    if (r.status != wire::P_OK)
-      fail("oracle:C01:accepted-invalid", "the bus dispatched a message from c%d that the independent codec rejects (%s)", ci, r.reason.c_str());
+    // A byte-level client: what it really wrote is its wire stream.  The next message the bus
+    // dispatches must be the next complete VALID message of that stream (independent codec).
+    wire::Limits wl;
+    if (lim_cfg.max_message_size >= 0) wl.max_message_size = (uint32_t)lim_cfg.max_message_size;
+    wl.max_unix_fds_available = 0;
+    wire::ParseResult r = wire::parse(c.wire_stream.substr(c.wire_pos), wl);
+    if (r.status != wire::P_OK) {
+      std::string known = known_validator_gap(c.wire_stream.substr(c.wire_pos), r.reason);
+      if (!known.empty()) { counters["finding:" + known]++; c.hostile_lost_sync = true; tainted = true; return; }
+      fail("oracle:C10:invalid-message-dispatched", "the bus dispatched a message (serial %u) from c%d although its byte stream at offset %zu is %s (%s)",
+           serial, ci, c.wire_pos, r.status == wire::P_INVALID ? "an invalid message" : "incomplete", r.reason.c_str());
+    }
+    if (r.msg.serial != serial)
+      fail("oracle:C10:invalid-message-dispatched", "the bus dispatched serial %u from c%d, the next message in its byte stream has serial %u", serial, ci, r.msg.serial);
+    c.wire_pos += r.total_len;
     md.process(ci, r.msg);
     after_event();
     return;
@@ -190,6 +198,7 @@ void Exec::on_dispatch(int ci, DBusConnection *conn, DBusMessage *msg) {
   if (s.m.serial != serial)
     fail("oracle:C05:sender-order", "the bus processed c%d's messages out of order: got serial %u, next sent was %u", ci, serial, s.m.serial);
   cur++;
+  c.wire_pos = s.end_off_stream;
   md.process(ci, s.m);
   after_event();
 }
@@ -203,6 +212,14 @@ void Exec::after_event() {
     pending_choices.push_back(ch);
     md.open_choices.erase(md.open_choices.begin() + (long)i);
   }
+}
+
+// Is this rejected-by-the-codec message one of the listed validator findings (ids in known_findings.json)?
+std::string Exec::known_validator_gap(const std::string &bytes, const std::string &reason) {
+  (void)bytes;
+  for (auto &id : md.known)
+    if (id.compare(0, 4, "C01-") == 0 && id.find(reason) != std::string::npos) return id;
+  return "";
 }
 
 // C13, white-box: at every step the counters the limits speak about are within the limits
@@ -280,6 +297,10 @@ void Exec::step(const Step &s) {
     oom_retry_possible = false;
     resolve_choices();
     check_limits_whitebox();
+    if (lim_cfg.max_incomplete_connections >= 0 && w.n_incomplete() == lim_cfg.max_incomplete_connections) {
+      simk::Listener *l = K->find_listener(w.listen_name);
+      if (l && !l->backlog.empty()) counters["probe:listener_paused"]++;
+    }
     return;
   }
   if (t == "adv") { w.advance_ms(s.N(0, 0)); md.now_us = K->now_us; return; }
@@ -353,9 +374,19 @@ void Exec::step(const Step &s) {
     if (!s.S(0).empty()) m.set_field(wire::F_DESTINATION, wire::Value::string(resolve_name(s.S(0))));
     if (!s.S(5).empty()) m.set_field(wire::F_SENDER, wire::Value::string(resolve_name(s.S(5))));
     if (s.N(4, 0) > 10) {
-      wire::Value v;
-      simk::Rng r((uint64_t)s.N(4) * 77 + m.serial);
-      m.fields.push_back({(uint8_t)s.N(4), random_value(r, 1)});
+      // 1..4 unknown header fields (distinct codes 11..255), inserted at positions of their own —
+      // adjacent to each other, to known fields, first or last
+      simk::Rng r((uint64_t)s.N(4) * 77);
+      int n = 1 + (int)r.below(4);
+      std::set<int> codes;
+      codes.insert((int)s.N(4) > 255 ? 11 + (int)(s.N(4) % 245) : (int)s.N(4));
+      while ((int)codes.size() < n) codes.insert((int)r.range(11, 255));
+      bool together = r.pct(50);
+      size_t at = r.below(m.fields.size() + 1);
+      for (int code : codes) {
+        if (!together) at = r.below(m.fields.size() + 1);
+        m.fields.insert(m.fields.begin() + (long)at, wire::Field{(uint8_t)code, random_value(r, 1)});
+      }
     }
     if (s.N(5, 0)) m.fields.push_back({wire::F_CONTAINER_INSTANCE, wire::Value::path("/org/freedesktop/DBus/Containers1/c" + std::to_string(s.N(5)))});
     std::vector<wire::Value> body;
@@ -461,6 +492,7 @@ void Exec::resolve_choices() {
 }
 
 static std::string prop_of_observed(const wire::Msg &o) {
+  for (auto &f : o.fields) if (f.code >= wire::F_CONTAINER_INSTANCE) return "C03";   // something a client injected got through
   if (o.sender() == bm::BUS) {
     if (o.type == wire::T_ERROR && o.error_name() == "org.freedesktop.DBus.Error.NoReply") return "C09";
     if (o.type == wire::T_ERROR) return "C05";
@@ -559,10 +591,48 @@ void Exec::compare_client(int ci) {
   c.got_checked = cur;
 }
 
+// C10: "A client that sends an invalid message is disconnected".  Judged by the independent codec on
+// the bytes that client really delivered.
+void Exec::check_hostile(int ci) {
+  bw::Client &c = w.C(ci);
+  if (!c.begun || !w.accepted(ci)) return;
+  size_t undelivered = std::min(c.out.size(), c.wire_stream.size());
+  size_t delivered = c.wire_stream.size() - undelivered;
+  wire::Limits wl;
+  if (lim_cfg.max_message_size >= 0) wl.max_message_size = (uint32_t)lim_cfg.max_message_size;
+  wl.max_unix_fds_available = 0;
+  size_t pos = 0;
+  bool invalid = false;
+  std::string reason;
+  while (pos < delivered) {
+    wire::ParseResult r = wire::parse(reinterpret_cast<const uint8_t *>(c.wire_stream.data()) + pos, delivered - pos, wl);
+    if (r.status == wire::P_OK) { pos += r.total_len; continue; }
+    if (r.status == wire::P_INVALID) { invalid = true; reason = r.reason; }
+    break;
+  }
+  if (!invalid) return;
+  counters["probe:hostile_invalid_message"]++;
+  if (c.saw_eof) { counters["probe:hostile_closed_by_bus"]++; return; }
+  std::string known = known_validator_gap(c.wire_stream.substr(pos), reason);
+  if (!known.empty()) { counters["finding:" + known]++; return; }
+  fail("oracle:C10:invalid-sender-not-disconnected", "c%d delivered an invalid message (%s at stream offset %zu) and is still connected after the bus went idle", ci, reason.c_str(), pos);
+}
+
 void Exec::check_point(bool final) {
   (void)final;
   w.quiesce();
   resolve_choices();
+  if (tainted) { for (auto &c : w.clients) c.got_checked = c.got.size(); return; }
+  // Bounded liveness for auth_timeout: a connection overdue now must be gone within one more
+  // timeout of simulated time once the system is left alone (the timer may legitimately have been
+  // armed late if the loop was not scheduled around the clock jump).
+  if (lim_cfg.auth_timeout >= 0) {
+    bool overdue = false;
+    for (auto &c : w.clients)
+      if (c.connected && !c.closed && !c.saw_eof && w.accepted(c.idx) && !md.conns[(size_t)c.idx].hello && w.accept_time_us.count(c.idx) &&
+          K->now_us - w.accept_time_us[c.idx] > (lim_cfg.auth_timeout + 1) * 1000) overdue = true;
+    if (overdue) { w.advance_ms(lim_cfg.auth_timeout + 1); md.now_us = K->now_us; w.quiesce(); resolve_choices(); }
+  }
   // what each client was told must be what the bus holds, and pairwise distinct
   std::set<std::string> seen;
   for (auto &c : w.clients) {
@@ -577,6 +647,13 @@ void Exec::check_point(bool final) {
     if (c.stalled) continue;
     if (c.saw_eof && k.alive && !k.unchecked && !c.hostile)
       fail("oracle:C10:unexpected-disconnect", "the bus closed well-behaved client c%d", c.idx);
+    if (c.hostile) check_hostile(c.idx);
+    // a connection that has not completed Hello within auth_timeout is dropped (C10: slow authenticators)
+    if (lim_cfg.auth_timeout >= 0 && w.accepted(c.idx) && !k.hello && !c.saw_eof && w.accept_time_us.count(c.idx) &&
+        K->now_us - w.accept_time_us[c.idx] > (2 * lim_cfg.auth_timeout + 2) * 1000)
+      fail("oracle:C10:auth-timeout", "c%d has been connected without completing Hello for %lld ms, auth_timeout is %ld ms, and it is still connected",
+           c.idx, (long long)((K->now_us - w.accept_time_us[c.idx]) / 1000), lim_cfg.auth_timeout);
+    if (c.saw_eof && !k.hello && lim_cfg.auth_timeout >= 0) counters["probe:auth_timeout_fired"]++;
     if (c.saw_eof) continue;
     if (k.expect_closed && !k.alive) continue;
     if (k.expect_closed && !w.accepted(c.idx)) continue;   // still in the listen backlog (incomplete-connection cap): nothing to close yet
